@@ -330,9 +330,29 @@ Fixpoint run_gen (cfg : config) (fx sp : bool) (s : state) (tr : list (nat * ev)
   | te :: r => match lstep_gen cfg fx sp s te with Some s' => run_gen cfg fx sp s' r | None => None end
   end.
 
+(** * Extra notifications.  A correct implementation may issue additional notify_one / notify_all calls on either condition
+      variable at any point (e.g. the destructor also notifying cv_finished_, a worker passing a wake-up on to another idle
+      worker): a notification that wakes nobody, or wakes a waiter that re-checks its predicate, is harmless.  They are not part
+      of [lstep_gen] (which follows one implementation), but of the reachability relation all theorems quantify over: any thread
+      that is alive and not blocked may perform one without changing its program counter. *)
+Definition can_xnotify (ts : tstate) : bool :=
+  match ts with
+  | TNone | TFin | TM M8 | TM (M2 _) | TM (M7 _) | TW W5 => false
+  | TWJ _ _ a _ | TC a _ | TMO a _ => match a with QLE3 | QLT3 | QWait _ => false | _ => true end
+  | _ => true
+  end.
+Definition xnotify (sh : shared) (e : ev) : option shared :=
+  match e with ENA c => Some (do_na c sh) | EN1 c w => do_n1 c w sh | _ => None end.
+Definition xstep (s : state) (te : nat * ev) : option state :=
+  let (t, e) := te in
+  if can_xnotify (get (thr s) t) then
+    match xnotify (shr s) e with Some sh' => Some {| shr := sh'; thr := thr s |} | None => None end
+  else None.
+
 Inductive reachable_gen (cfg : config) (fx sp : bool) : state -> Prop :=
 | reach_init : reachable_gen cfg fx sp (init cfg)
-| reach_step : forall s te s', reachable_gen cfg fx sp s -> lstep_gen cfg fx sp s te = Some s' -> reachable_gen cfg fx sp s'.
+| reach_step : forall s te s', reachable_gen cfg fx sp s -> lstep_gen cfg fx sp s te = Some s' -> reachable_gen cfg fx sp s'
+| reach_xnotify : forall s te s', reachable_gen cfg fx sp s -> xstep s te = Some s' -> reachable_gen cfg fx sp s'.
 Definition reachable cfg sp := reachable_gen cfg true sp.
 
 (** * Enabledness (used by the driver to cross-check rest states, and by the liveness theorems).
